@@ -555,6 +555,40 @@ func runC19(r *ev.Run) {
 				}
 			}
 		}
+		// inputs holding non-finite scores (NaN, +-Inf): nothing is promised about the fused VALUES, but every kind still
+		// answers without panicking and leaves both input maps bit for bit as they were
+		if i%3 == 0 && len(v0)+len(t0) > 0 {
+			nv, nt := cp(v0), cp(t0)
+			poke := func(m map[uint32]float64) {
+				for id := range m {
+					if rng.IntN(3) == 0 {
+						m[id] = []float64{math.NaN(), math.NaN(), math.Inf(1), math.Inf(-1)}[rng.IntN(4)]
+					}
+				}
+			}
+			poke(nv)
+			poke(nt)
+			nv0, nt0 := cp(nv), cp(nt)
+			for _, kind := range []comet.FusionKind{comet.WeightedSumFusion, comet.MaxFusion, comet.MinFusion, comet.ReciprocalRankFusion} {
+				f, err := comet.NewFusion(kind, cfg)
+				if err != nil {
+					continue
+				}
+				func() {
+					defer func() {
+						if p := recover(); p != nil {
+							fail("fusion."+string(kind)+".panic", fmt.Sprintf("Combine panicked on inputs with non-finite scores: %v", p))
+						}
+					}()
+					f.Combine(nv, nt)
+				}()
+				if !same(nv, nv0) || !same(nt, nt0) {
+					fail("fusion."+string(kind)+".mutates-input", fmt.Sprintf("Combine changed an input map holding non-finite scores: vector %v -> %v, text %v -> %v", nv0, nv, nt0, nt))
+					nv, nt = cp(nv0), cp(nt0)
+				}
+				r.Count("fusion-non-finite-inputs", 1)
+			}
+		}
 		if f, err := comet.NewFusion(comet.WeightedSumFusion, nil); err != nil || f == nil {
 			fail("fusion.constructor", "NewFusion with nil config failed")
 		} else {
